@@ -77,15 +77,34 @@ def is_len_of(e: ast.AST, name: str) -> bool:
     return isinstance(e, ast.Call) and isinstance(e.func, ast.Name) and e.func.id == "len" and len(e.args) == 1 and isinstance(e.args[0], ast.Name) and e.args[0].id == name
 
 
-def prefix_idiom(ctx: Ctx, f, lst: str, nump: str):
-    """True / False / None(inconclusive) + explanation."""
-    sc = ctx.an.scope(f)
+def prefix_idiom(ctx: Ctx, f, lst: str, nump: str, frame=None, env=None, _depth: int = 0):
+    """True / False / None(inconclusive) + explanation.  (frame, env): the function whose local `lst` is - stop itself, or a
+    helper spliced into it that computes the list and returns it."""
+    from ..cfg import bind_args, strip_cast
+
+    frame = frame or f
+    sc = ctx.an.scope(frame)
     hows = sc.defs.get(lst, [])
     vals = [h[1] for h in hows if h[0] == "assign"] + [h[2] for h in hows if h[0] == "ann"]
     if len(vals) != 1:
         return None, "the id list has several definitions"
-    v = vals[0]
-    P = ctx.eff.paths(f)
+    v = strip_cast(vals[0])
+    if isinstance(v, ast.Call) and id(v) in ctx.an.spliced_at and _depth < 3:
+        t = ctx.an.spliced_at[id(v)]
+        sub = bind_args(v, t, frame, env)
+        rets = [r.value for r in ctx.an.scope(t)._own_nodes() if isinstance(r, ast.Return) and r.value is not None]
+        names = {r.id for r in rets if isinstance(r, ast.Name)}
+        nump2 = next((pn for pn, (_c, arg, _e) in sub.items() if isinstance(arg, ast.Name) and arg.id == nump), None)
+        if len(names) == 1 and len(rets) == len([r for r in rets if isinstance(r, ast.Name)]) and nump2 is not None:
+            return prefix_idiom(ctx, f, names.pop(), nump2, t, sub, _depth + 1)
+        return None, "the id list comes from a helper whose result is not understood"
+
+    class _P:
+        @staticmethod
+        def of(x):
+            p = ctx.eff.paths(frame).of(x)
+            return ctx.eff.rebase(p, frame, env) if p is not None else None
+    P = _P
 
     def reversed_running(e: ast.AST) -> Optional[bool]:
         """True: reversed view of the running registry; False: the registry in another order; None: something else"""
@@ -111,7 +130,7 @@ def prefix_idiom(ctx: Ctx, f, lst: str, nump: str):
 
     # idiom 1: ids = []; for i, task_id in enumerate(<reversed running>): if i >= num: break; ids.append(task_id)
     if (isinstance(v, ast.List) and not v.elts) or (isinstance(v, ast.Call) and isinstance(v.func, ast.Name) and v.func.id == "list" and not v.args):
-        apps = ctx.distinct_sites(ctx.nodes(f, lambda n: n.op == "call" and isinstance(n.ast.func, ast.Attribute) and n.ast.func.attr == "append"
+        apps = ctx.distinct_sites(ctx.nodes(f, lambda n: n.op == "call" and n.func is frame and isinstance(n.ast.func, ast.Attribute) and n.ast.func.attr == "append"
                                             and isinstance(n.ast.func.value, ast.Name) and n.ast.func.value.id == lst))
         if len(apps) != 1 or not apps[0].loops:
             return None, "the id list is not built by a single append in a loop"
